@@ -13,6 +13,7 @@ import (
 	"sort"
 	"strings"
 	"sync"
+	"time"
 )
 
 func init() {
@@ -485,16 +486,45 @@ func checkC17(c *Ctx) {
 			}
 		}
 	}
+	// history outside the process: the real binary writing to an output file that an earlier run
+	// (of another, longer or shorter input) has left behind must produce what it writes to a fresh file
+	if dir, derr := newScratch("c17cli"); derr == nil {
+		defer os.RemoveAll(dir)
+		short := "script Short {\n    lock\n    msgbox(\"Hi\")\n}\n"
+		long := "script Long {\n" + strings.Repeat("    msgbox(\"A rather long line of text number one\")\n    setvar(VAR_0x8004, 5)\n", 40) + "}\n" + short
+		ccPath, _ := writeAutoVarConfig(dir, nil)
+		for i, pair := range [][2]string{{long, short}, {short, long}, {long, long}, {short, "raw `x`\n"}} {
+			for _, lm := range []string{"-lm=false", "-lm=true"} {
+				used, fresh := filepath.Join(dir, fmt.Sprintf("used%d%s.inc", i, lm[4:])), filepath.Join(dir, fmt.Sprintf("fresh%d%s.inc", i, lm[4:]))
+				_, _, e1, t1 := RunBinary(c.Bin, pair[0], []string{"-cc", ccPath, lm, "-o", used}, 15*time.Second)
+				_, _, e2, t2 := RunBinary(c.Bin, pair[1], []string{"-cc", ccPath, lm, "-o", used}, 15*time.Second)
+				_, _, e3, t3 := RunBinary(c.Bin, pair[1], []string{"-cc", ccPath, lm, "-o", fresh}, 15*time.Second)
+				if e1 != 0 || e2 != 0 || e3 != 0 || t1 || t2 || t3 {
+					c.Violate(Violation{What: "the poryscript binary failed on a well-formed file written to -o", Source: pair[1]})
+					continue
+				}
+				bu, _ := os.ReadFile(used)
+				bf, _ := os.ReadFile(fresh)
+				id := fmt.Sprintf("rebuild%d%s", i, lm[4:])
+				srcOf[id] = "first run:\n" + pair[0] + "second run, same -o file:\n" + pair[1]
+				recs = append(recs, map[string]interface{}{"id": id, "out1": outLines(string(bu)), "out2": outLines(string(bf)), "err1": false, "err2": false})
+			}
+		}
+	}
 	bad, states, ok := runPairCases(c, "SameOut", "same.ndjson", recs)
 	if !ok {
 		return
 	}
 	for id := range bad {
-		c.Violate(Violation{What: "the code emitted for a statement depends on an unrelated statement of the file (" + id + ")", Source: srcOf[id]})
+		what := "the code emitted for a statement depends on an unrelated statement of the file (" + id + ")"
+		if strings.HasPrefix(id, "rebuild") {
+			what = "the same input and options written to an -o file that an earlier run left behind differ from the output written to a fresh file (" + id + ")"
+		}
+		c.Violate(Violation{What: what, Source: srcOf[id]})
 	}
 	c.Cov("evaluations", int64(ncomp+len(recs)))
 	c.Cov("distinct_nontrivial", int64(len(inputOf)+len(recs)))
-	c.CovSet("rule", "determinism: every schedule of <= MaxLen compilations over pools of 4 inputs (TLC-enumerated, GenSched.tla) run in one process, pools of hand-made near-duplicates (format() parameters, font options, constants, errors, switches, markers) and of seeded files, plus 16-way concurrent compilations; a distinct case is a distinct (input, options) key. independence: seeded files compared with the join of their statements compiled alone, and with the same file after inserting an unrelated statement")
+	c.CovSet("rule", "determinism: every schedule of <= MaxLen compilations over pools of 4 inputs (TLC-enumerated, GenSched.tla) run in one process, pools of hand-made near-duplicates (format() parameters, font options, constants, errors, switches, markers) and of seeded files, plus 16-way concurrent compilations; a distinct case is a distinct (input, options) key. independence: seeded files compared with the join of their statements compiled alone, and with the same file after inserting an unrelated statement; history outside the process: the binary writing over an -o file left by an earlier run of a longer / shorter / equal input")
 	c.Cov("compilations_in_history", int64(ncomp))
 	c.Cov("independence_pairs", int64(len(recs)))
 	c.Cov("states", to.States+states)
